@@ -10,6 +10,7 @@ git -C /repo worktree add -q --detach $W HEAD || exit 2
 trap 'git -C /repo worktree remove --force '$W' 2>/dev/null; git -C /repo worktree prune' EXIT
 (cd $W && git apply "$P") || { echo "patch does not apply"; exit 2; }
 /verif/tools/repotest.sh $W | tail -3
+mkdir -p /tmp/try-evidence
 for id in $IDS; do
   out=$(cd /verif && VERIF_REPO=$W VERIF_EVIDENCE_DIR=/tmp/try-evidence ./check $id ${TIER:-quick} 2>&1); rc=$?
   echo "$id exit=$rc $(echo "$out" | grep -m1 '^violation:' | cut -c1-260)"
